@@ -13,7 +13,7 @@ CHECKS = {
         category="model_checking",
         technique="TLC trace validation (Trace_Api: sent = Wire!EncodeLayout(Messages!Req[op], Api!Fields(op,args))) of API calls recorded at the transport boundary; TLC check of table well-formedness and codec round trip (MC_Wire)",
         text="The protocol (field codec, 65 message layouts, per-operation request construction) is an executable TLA+ definition; TLC checks its well-formedness and round trip, "
-             "and then judges every recorded call of the real library (sequences on one client: all ordered pairs of operations, every 1-byte argument over all 256 values, all HH:mm values, random and boundary tuples, serial bit-walks) "
+             "and then judges every recorded call of the real library (sequences on one client: all ordered pairs of operations, every 1-byte argument over all 256 values, all HH:mm values, random and boundary tuples, serial bit-walks, dense date histories across a leap-year end, client configurations with every protocol string) "
              "by comparing all 64 bytes handed to the transport with the specification's encoding. Exhaustive per field, combinatorial/random across fields; not a proof over all argument tuples.",
         note="Trusted: spec/Messages.tla as the protocol (frozen transcription of the pinned commit, cross-checked against the repository's golden vectors); TLC; the harness projection of arguments (field copies). TZ=UTC.",
         design="4/C01",
@@ -22,15 +22,15 @@ CHECKS = {
         category="model_checking",
         technique="TLC trace validation (Trace_Api: Api!ResultOK(op,args,cfg,reply,result)) of API calls answered by scripted replies generated field by field from the TLC-exported layouts",
         text="Api!ResultOK defines, per operation, which results are acceptable for a header-correct reply: the protocol decoding of every field (sentinels first), or - for a field outside its domain - an error or the field's zero value, never another value. "
-             "TLC judges every recorded call; the harness enumerates every byte of every reply field over all 256 values, out-of-domain / zero / random variants per field, sentinel patterns, calendar patterns in every date slot and HH:mm byte pairs.",
-        note="Trusted: spec/Messages.tla + Api.tla as protocol; TLC; result projection by field copy. TZ=UTC. Documented don't-cares are listed in the evidence assumptions.",
+             "TLC judges every recorded call; the harness enumerates every byte of every reply field over all 256 values, out-of-domain / zero / random variants per field, sentinel patterns, special byte patterns per field, calendar patterns in every date slot and HH:mm byte pairs; a zone pass repeats the date/time-bearing operations in child processes running in zones with offset changes (calendar fields on the change days, existing civil times only).",
+        note="Trusted: spec/Messages.tla + Api.tla as protocol; TLC; result projection by field copy. TZ=UTC for the main run. Documented don't-cares are listed in the evidence assumptions.",
         design="4/C02",
     ),
     "C03": dict(
         category="model_checking",
         technique=TR,
         text="Invariants AcceptOnlyValid, BcastKeepsWaiting, FailOnlyOnBad, SetAddrNeverReads hold on the complete state space of three bounded configurations (2-3 calls, all datagram classes, strays, peer faults). "
-             "Behaviours of the same specification (controller answers of 1-2 datagrams from 8 classes, strays injected into the call's source port, all three paths) are replayed against the unmodified driver on loopback and every recorded scenario must be a behaviour of the specification: accepted / skipped / refused exactly as the model's Recv says.",
+             "Behaviours of the same specification (controller answers of 1-2 datagrams from 8 classes, strays injected into the call's source port, all three paths) are replayed against the unmodified driver on loopback and every recorded scenario must be a behaviour of the specification: accepted / skipped / refused exactly as the model's Recv says; one hand-made behaviour per wrong length (19 lengths, 0..4096) and path.",
         note="Trusted: TLC; the farm's concretisation of datagram classes; timing on a 50 ms tick with a re-run rule (a rejection counts only if reproduced in isolation at 150 ms tick). Operation coverage on real sockets is representative (GetCardByIndex, GetStatus incl. 0x19, SetAddress); per-operation decoding is C02's.",
         design="4/C03",
     ),
@@ -38,14 +38,14 @@ CHECKS = {
         category="model_checking",
         technique="TLC trace validation (Trace_Codec / Trace_Api conjuncts NoPanic, RenderOK) of recovered-panic outcome records from systematic byte-string and argument enumeration through every decode entry point, operation and the event handler",
         text="Totality: the specification gives every decode entry point and operation a non-panic outcome for every input, so a recorded panic (recovered by the harness) or a panicking String()/JSON rendering of a returned value is a trace the specification rejects. "
-             "Inputs: every length 0..80 (+ selected to 2048) x 6 content classes and every single byte of a valid message over all 256 values, for all 65 message types; arbitrary datagrams returned to every operation and the listener; extreme argument tuples.",
+             "Inputs: every length 0..80 (+ selected to 2048) x 6 content classes, every single byte of a valid message over all 256 values and special patterns per field, for all 65 message types; arbitrary datagrams returned to every operation and the listener; C02's field-by-field reply generator through every operation with String() called directly and JSON; byte strings of every length through the REAL driver on loopback (udp, tcp, broadcast, discovery, listener; debug off/on); extreme argument tuples. A harness process killed by a panic whose first non-runtime frame is library code is reported as a violation.",
         note="Trusted: recover() as panic observer; TLC. The specification contributes the outcome classes and (where inputs are in C02/C05's domain) the values; it cannot itself observe a Go panic.",
         design="4/C04",
     ),
     "C05": dict(
         category="model_checking",
         technique="TLC trace validation (Trace_Codec: EncodedOK / decoded = value / slack independence / dispatch table) of codec calls on all 65 message types in child processes per time zone; slack positions exported from the specification",
-        text="For generated in-domain values of every registered message type the specification checks the encoding byte for byte, that decoding (Unmarshal, UnmarshalAs) returns the value, and that it still does after bytes outside every field (positions computed by TLC) are changed; "
+        text="For generated in-domain values of every registered message type the specification checks the encoding byte for byte, that decoding (Unmarshal, UnmarshalAs) returns the value, and that it still does after bytes outside every field (positions computed by TLC) are changed (a quarter of the calendar values on the process zone's offset-change days); "
              "the dispatchers are checked against Messages!TypeOfCode over all function codes, lengths and protocol ids. One child process per zone: 12 zones quick, every IANA zone thorough.",
         note="Trusted: spec tables; TLC; reflection-based value generation/projection in the harness; existence of a civil time in a zone is taken from Go's time package.",
         design="4/C05",
@@ -61,7 +61,7 @@ CHECKS = {
     "C07": dict(
         category="model_checking",
         technique="TLC trace validation (Trace_Api: nothing sent <=> Api!Reject(op,args)) of API calls recorded on the scripted transport, incl. the complete 2^32 card-number space as accept intervals (thorough)",
-        text="Api!Reject is the complete list of refusal reasons of the property; each recorded call must have put nothing on the transport and returned an error exactly when Reject holds, and exactly one request otherwise. "
+        text="Api!Reject is the complete list of refusal reasons of the property; each recorded call must have put nothing on the transport and returned an error exactly when Reject holds, and exactly one request otherwise; SetDoorPasscodes requests must carry exactly the valid passcodes (PasscodesSentOrDisabled). "
              "Boundary-exhaustive argument sets per rule (card numbers around every facility-code boundary x format lists, PINs, AddrPort variants, net.IP shapes, doors 0..255, HH:mm pairs); thorough tier decides the Wiegand-26 accept set over all 2^32 numbers.",
         note="Trusted: TLC; the scripted transport as observation point for 'nothing on the network'; argument projection by field copy.",
         design="4/C07",
@@ -69,8 +69,8 @@ CHECKS = {
     "C08": dict(
         category="model_checking",
         technique=TR + "; happens-before model of Broadcast() (spec/Discovery.tla, vector clocks) with NoRace invariant; Go race detector as observer of memory races on the same scripts + discovery + listener shutdown",
-        text="NoCrossedReplyStrict, PortExclusive, TimelyAnswerAccepted hold over all interleavings of 3 calls to one controller on a shared fixed port (delays < T); XF_NoGuard, XF_DeadlineBeforeLock and XF_DiscoveryUnsync each yield the modelled defect's counterexample. "
-             "Simulated behaviours with 3-4 concurrent calls (same controller, mixed paths, fixed and ephemeral port) are replayed on real sockets with request tags echoed in replies so that a crossed reply or a refused timely answer is a rejected trace; the same scripts run under -race.",
+        text="NoCrossedReplyStrict, PortExclusive, TimelyAnswerAccepted hold over all interleavings of 3 calls to one controller on a shared fixed port (delays < T); XF_NoGuard, XF_GuardPerClient (the lock owned by a client instead of the process), XF_DeadlineBeforeLock and XF_DiscoveryUnsync each yield the modelled defect's counterexample. "
+             "Simulated behaviours with 3-4 concurrent calls (same controller, mixed paths, fixed and ephemeral port) are replayed on real sockets with request tags echoed in replies so that a crossed reply or a refused timely answer is a rejected trace (incl. calls that queue for the fixed port and then use TCP); a gate around the real driver (verif hook) forces the schedule Transport!Finish(a) .. [call b completes 1-4 times] .. Transport!Return(a) over all nine path pairs, same / other client, and each result must interpret its own reply (Trace_Api!CheckGate); the same scripts run under -race.",
         note="Whether a memory race happened is observed by the Go race detector, not by the specification (which contributes the synchronisation design and arbitrates the trace). Timing as C03.",
         design="4/C08",
     ),
@@ -78,23 +78,23 @@ CHECKS = {
         category="model_checking",
         technique=TR + "; liveness (Termination) under weak fairness; process-level fd / goroutine counts as logged state",
         text="BoundedReturn, NoEarlyGiveUp, DeadlineFromAsk, Released are invariants of the model; Termination holds under weak fairness; XF_RearmPerRead / XF_NoCloseOnError / XF_DeadlineBeforeLock are refuted. "
-             "Replayed behaviours cover silence, late replies, refused and reset TCP, ICMP-refused UDP, accept-and-stall, and floods of irrelevant datagrams until the deadline (alone and with the genuine reply at T-1); time-outs must fall in tick T after being asked, timely replies must be accepted, and each child process must hold no more sockets or goroutines afterwards.",
+             "Replayed behaviours cover silence, late replies, refused and reset TCP, ICMP-refused UDP, accept-and-stall, and floods of irrelevant datagrams until the deadline (alone and with the genuine reply at T-1); time-outs must fall in tick T after being asked, timely replies must be accepted, and each child process must hold no more sockets or goroutines afterwards; discovery (Discovery.tla: WindowAbsolute, ReaderQuits under fairness, XF_DiscoveryRearm / XF_DiscoveryHandOff refuted) is exercised under a datagram-per-millisecond flood through the deadline with goroutine / socket accounting (Trace_Api!CheckQuiesce).",
         note="Trusted: /proc/self/fd and runtime.NumGoroutine; tick timing with half a tick of slack on time-outs; re-run rule.",
         design="4/C09",
     ),
     "C10": dict(
         category="model_checking",
-        technique="TLC model check of spec/Listener.tla (invariants + liveness under weak fairness, XF_SpawnPerEvent refuted); TLC trace validation (Trace_Listener, inferred internal steps, per-sender FIFO network) of real Listen() scenarios on loopback; TLC trace validation (Trace_Api EventDecoded / Stable) of every delivered status",
+        technique="TLC model check of spec/Listener.tla (invariants + liveness under weak fairness, XF_SpawnPerEvent, XF_DropWhenBusy, XF_DoneOnClose refuted; NoSendOnClosedPipe); TLC trace validation (Trace_Listener, inferred internal steps, per-sender FIFO network) of real Listen() scenarios on loopback; TLC trace validation (Trace_Api EventDecoded / Stable) of every delivered status",
         text="EventsInOrderOnce, ErrorsInOrderOnce, ConnectedOnce, Complete, Rebindable and Terminates hold for 2 senders x 4 datagrams x quit at any point. Real listener runs (1-3 senders, 8 datagram classes, start/stop cycles with an immediate re-bind) must be behaviours of that specification; "
-             "each delivered status must equal the specification's decoding of its datagram at delivery and again after the run, also when the handler is fed from one reused, overwritten buffer.",
+             "each delivered status must equal the specification's decoding of its datagram at delivery and again after the run, also when the handler is fed from one reused, overwritten buffer; a zone pass feeds events whose calendar fields sit on the offset-change days of DST zones (child process in that zone).",
         note="Trusted: TLC; flow control in the harness so that the kernel cannot drop; errors carry no identity (matched to 'some bad datagram'). Scripts are seeded by the harness.",
         design="4/C10",
     ),
     "C11": dict(
         category="model_checking",
-        technique="TLC model check of spec/Discovery.tla (ResultSound, ResultComplete, NoRace; XF_DiscoveryUnsync refuted); TLC trace validation (Trace_Api: Api!DiscoveryOK, a recursive matcher of results against the delivered datagram sequence) on the scripted transport and against the real Broadcast()",
+        technique="TLC model check of spec/Discovery.tla (ResultSound, ResultComplete, WindowAbsolute, NoRace, ReaderQuits; XF_DiscoveryUnsync, XF_DiscoveryRearm refuted); TLC trace validation (Trace_Api: Api!DiscoveryOK, a recursive matcher of results against the delivered datagram sequence) on the scripted transport and against the real Broadcast()",
         text="Two-sided formulation: complete for datagrams inside the window, sound for everything returned, order preserved, duplicates kept, malformed datagrams contribute nothing and never fail the call; address completed with the broadcast port, name from the configured controller. "
-             "Every sequence of <=3/<=4 datagrams over 7 classes through GetDevices on the scripted transport, plus random multisets through the real Broadcast() on loopback.",
+             "Every sequence of <=3/<=4 datagrams over 7 classes through GetDevices on the scripted transport, plus random multisets through the real Broadcast() on loopback with a further valid reply 0.35 T after the timeout (while the call may still be running) that must not be listed.",
         note="Trusted: TLC; in Rig L the sent list is taken as the delivered list (sequential sends on loopback).",
         design="4/C11",
     ),
@@ -110,28 +110,28 @@ CHECKS = {
     "C13": dict(
         category="model_checking",
         technique=PURE + " (CivilValue / CivilWire) in one child process per time zone; midnight-gap days found per zone from the tz database by the harness",
-        text="The specification owns the calendar and the wire form: every date / date-time that exists in the process zone must be reported as its civil value and encode to its own digits. All days whose local midnight is skipped 1900-2100 (found per zone), their neighbours, skipped days (exempt), boundaries and random days through ToDate, ParseDate, wire and JSON decode, String, SystemDate, date-time decode and the status recombination; 25 zones quick, every zone thorough.",
+        text="The specification owns the calendar and the wire form: every date / date-time that exists in the process zone must be reported as its civil value and encode to its own digits. All days whose local midnight is skipped 1900-2100 (found per zone), their neighbours, skipped days (exempt), the days of ordinary offset changes, boundaries and random days through ToDate, ParseDate, wire and JSON decode, String, SystemDate, date-time decode (five clock readings per day) and the date+time recombination of GetStatus and of the event listener; 25 zones quick, every zone thorough.",
         note="Trusted: existence of a civil time in a zone is computed by Go's time package / system tz database (TLA+ has no tz database); TLC.",
         design="4/C13",
     ),
     "C14": dict(
         category="model_checking",
         technique=PURE + " (JsonRoundTrip, JsonRoundTripAsMember, TextValue, TextReject; spec/Text.tla character-level grammars, spec/Addr.tla for address JSON)",
-        text="For each public type with a JSON form, generated in-domain values are encoded, decoded into a fresh zero value (nil maps) and as a struct member, and compared semantically by the specification; per type a character-level grammar says which texts denote which value and which must be rejected. Dates and date-times in a child process per zone.",
+        text="For each public type with a JSON form, generated in-domain values are encoded, decoded into a fresh zero value (nil maps) and as a struct member, and compared semantically by the specification; per type a character-level grammar says which texts denote which value and which must be rejected. Dates, date-times (random instants 1850-2100 and instants around the zone's own offset changes - the hour that occurs twice), cards and the text form of dates in a child process per zone, a third of the dates on the zone's offset-change days.",
         note="Trusted: TLC; semantic projections in the harness (door / weekday / segment look-ups); documented don't-cares.",
         design="4/C14",
     ),
     "C15": dict(
         category="model_checking",
         technique=PURE + " (AcceptExact, Reject, FormatRoundTrip, RejectNoQuad; spec/Addr.tla) + TLC check of the grammar's consistency (MC_Addr)",
-        text="Addr!MustAccept / MustReject / don't-care partition texts per role; every string over {1,0,2,5,.,:} up to length 7/9, all ports, single-character mutations of valid addresses and format/parse round trips are judged by TLC for all four roles.",
+        text="Addr!MustAccept / MustReject / don't-care partition texts per role; every string over {1,0,2,5,.,:} up to length 7/9, all ports (and decimal numbers beyond 65535: MustReject), single-character mutations of valid addresses and format/parse round trips (boundary addresses such as 0.0.0.0 and 255.255.255.255 x boundary ports first, then random) are judged by TLC for all four roles.",
         note="Trusted: TLC; texts as code points.",
         design="4/C15",
     ),
     "C16": dict(
         category="model_checking",
         technique=PURE + " (rows of Before/After/Equals verdicts recomputed from the lexicographic operators) + TLC check of trichotomy / transitivity / irreflexivity and agreement with the day number on a bounded grid (MC_Order)",
-        text="All 1441^2 HH:mm pairs (thorough; every 5th row quick), adjacent days of four years incl. leap and century years, boundaries, random grids, and date-time vs instant around second boundaries; the segment rule is decided in C07's run.",
+        text="All 1441^2 HH:mm pairs (thorough; every 5th row quick), every day of four years incl. leap and century years against its calendar neighbours, the year ends of a 400-year cycle (thorough: all years), month ends, boundaries, random grids, date-time vs instant around second boundaries and around the offset changes of the operands' own locations; the segment rule (Trace_Api!CheckSegmentRule) over all ordered pairs of a boundary-rich HH:mm set through SetTimeProfile.",
         note="Trusted: TLC; whole-second timestamps logged as two 20-bit halves.",
         design="4/C16",
     ),
@@ -145,7 +145,7 @@ CHECKS = {
     "C18": dict(
         category="model_checking",
         technique="TLC trace validation (Trace_Layout: Wire!EncodedOK / round trip / NoAlias / TagsEnforced applied to the layout carried by each event) of struct types generated from the tag grammar with reflect.StructOf",
-        text="The same executable field codec that judges the shipped messages judges generated layouts: every single-field layout (19 Go field types x every fitting offset x top-level/embedded), fixed-value byte tags in four notations at every offset, and 1000/20000 random multi-field layouts packed to the last byte; plus aliasing (input buffer overwritten after decode) and enforcement of function-code / fixed-value tags.",
+        text="The same executable field codec that judges the shipped messages judges generated layouts: every single-field layout (19 Go field types x every fitting offset x top-level/embedded), fixed-value byte tags in four notations at every offset, and 1000/20000 random multi-field layouts packed to the last byte, the embedded struct first / in the middle / last among the top-level fields; plus aliasing (input buffer overwritten after decode) and enforcement of function-code / fixed-value tags.",
         note="Trusted: TLC; layouts are harness-generated (seeded), not exported from TLC.",
         design="4/C18",
     ),
